@@ -14,8 +14,8 @@ import (
 //
 //verif:props=C18 bounds="one allocation; CreatePermission x2 and ChannelBind x2 with arbitrary peers/numbers; callbacks observe the tables"
 func VerifHarness_C18_publication() {
-	a, _, _ := vNewAlloc(nil)
-	log := &vLogger{}
+	a, _, _ := VNewAlloc(nil)
+	log := &VLogger{}
 	observe := func() {
 		for _, p := range a.permissions {
 			vAssert(p.lifetimeTimer != nil, "C18.published_permission_has_timer")
@@ -32,17 +32,17 @@ func VerifHarness_C18_publication() {
 		OnChannelCreated: func(src, dst net.Addr, protocol, userID, realm string, relay, peer net.Addr, n uint16) { observe() },
 		OnChannelDeleted: func(src, dst net.Addr, protocol, userID, realm string, relay, peer net.Addr, n uint16) { observe() },
 	}
-	a.AddPermission(NewPermission(vUDPAddr4(), log, 300*time.Second))
-	a.AddPermission(NewPermission(vUDPAddr4(), log, 300*time.Second))
+	a.AddPermission(NewPermission(VUDPAddr4(), log, 300*time.Second))
+	a.AddPermission(NewPermission(VUDPAddr4(), log, 300*time.Second))
 	n1, n2 := proto.ChannelNumber(vU16()), proto.ChannelNumber(vU16())
-	_ = a.AddChannelBind(NewChannelBind(n1, vUDPAddr4(), log), 600*time.Second, 300*time.Second)
-	_ = a.AddChannelBind(NewChannelBind(n2, vUDPAddr4(), log), 600*time.Second, 300*time.Second)
+	_ = a.AddChannelBind(NewChannelBind(n1, VUDPAddr4(), log), 600*time.Second, 300*time.Second)
+	_ = a.AddChannelBind(NewChannelBind(n2, VUDPAddr4(), log), 600*time.Second, 300*time.Second)
 	observe()
 	vAssert(vLocksHeld() == 0, "C18.no_lock_held_after_requests")
 	// teardown right after: must not crash and must leave no lock held
 	_ = a.Close()
 	vAssert(vLocksHeld() == 0, "C18.no_lock_held_after_close")
 	_ = a.Close()
-	vAssert(a.relayPacketConn.(*vPacketConn).closed == 1, "C18.close_twice_closes_socket_once")
+	vAssert(a.relayPacketConn.(*VPacketConn).Closed == 1, "C18.close_twice_closes_socket_once")
 	vReach("end")
 }
